@@ -77,6 +77,14 @@ P = {
          "Lean 4 theorems over the logger state machine (EmdModel/Logger.lean; wrapVerbose mirrors wrap_verbose line by line): after every decorated call (returning or raising, any verbosity, from any state including never-set-up) the full logger state is restored; results and errors are the call's own, never a wrapper error; an override is in force during the call; lifted by induction to all histories (the level trajectory does not move across a call, the final state equals that of the history with calls removed, results depend on the calls alone). Correspondence enumerates every history of length 3 (quick) / 4 (thorough) over 21 operations from both start states as a fork tree (each history in its own process), plus random longer histories with file logging, all sift variants and non-convergence raises; compared per step: get_level(), error kind, console visibility of INFO/DEBUG records, output digest.",
          'Trusted: Lean kernel + standard axioms; model + harness; the wrapped function body is abstracted to returns/raises and python logging is an oracle; independence of real sift outputs from logger state is decided by bitwise digest comparison in the correspondence run. Defect D16 repaired in /repo.',
          "Lean 4 proof over hand-written model + differential correspondence with the implementation", '5 C20'),
+ 'C07': (True,
+         'Lean 4 theorems over EmdModel/Mask.lean and the pool model of EmdModel/Ensemble.lean, for every extractor, mask table, signal, nphases, worker count and schedule: masked IMF = phase average of (extract(x+m_i) - m_i), flag = any; zero amplitude = unmasked extraction; frequency ladder z/s^k or the user list with the cap lowered; amplitude modes abs / ratio_sig / ratio_imf with scalar or array amplitude; peeling (column k = masked extraction of x - sum of previous columns with f_k, a_k*sd_k) with the returned frequencies being the ones used; Pool.starmap of a pure job = map under every execution order x worker assignment, hence get_next_imf_mask / mask_sift are independent of nprocesses. Correspondence: real get_next_imf_mask and mask_sift(ret_mask_freq=True) vs the model with extraction / std / cos tables from the same run; bitwise equality of outputs across nprocesses 1..8 with random worker delays.',
+         "Trusted: Lean kernel + standard axioms; model + harness; get_next_imf, cos, np.std, get_mask_freqs('zc'/'if') are oracles; multiprocessing.Pool is modelled as a schedule (the real OS scheduling is sampled); purity of jobs and starmap argument order are validated per run; envelope/extrema options of the masked variants belong to C06.",
+         "Lean 4 proof over hand-written model + differential correspondence with the implementation", '5 C07'),
+ 'C08': (True,
+         'Lean 4 theorems over EmdModel/Ensemble.lean (abstract RNG stream, fork-semantics worker pool), for every schedule: member i receives the i-th parent draw, members are pairwise distinct under injective draws, the result is the per-IMF mean over members (absent columns count as zero), a flip member is the mean of the +noise and -noise decompositions, zero noise gives exactly the classic capped sift, the complete-ensemble member i uses column i of the parent matrix at every stage; a negation witness shows that the pinned in-worker draw shares noise between workers. Correspondence on the grid nensembles 1..8 x nprocesses 1..8 x {single, flip} x noise {0, small, large}: noise traced from outside per pid (wrappers on numpy.random and the public sift inherited by forked workers), sharing pattern vs the model under the observed schedule, output vs the model mean recomputed with the public sift.',
+         "PARTIAL: the real OS scheduler is sampled, not enumerated; the theorems cover every schedule of the fork-pool model. RNG distinctness is an assumption validated per run; sift is an oracle (tabulated per member); complete-ensemble stage count is taken from the output (stop logic is C03's). Defects D7 (forked workers shared RNG state) and D7b (flip mode with ragged +/- runs) repaired in /repo.",
+         "Lean 4 proof over hand-written model + differential correspondence with the implementation", '5 C08'),
 }
 ALL = ['C%02d' % i for i in range(1, 21)]
 
